@@ -133,7 +133,7 @@ func runC01(c any, x *kit.Ctx) {
 			r := drv.Read(rk, x.Dir, file, cs.Opts)
 			x.Eval(1)
 			x.Transition(len(stored) + 1)
-			legacy := rk != "br-bytes" && rk != "br-stream" && rk != "br-file"
+			legacy := rk != "br-bytes" && rk != "br-stream" && rk != "br-file" && rk != "root-reader-lenient"
 			if legacy && len(rootRaws) == 0 {
 				// documented refusal: the legacy readers reject an empty root list
 				e := r.OpenErr
